@@ -8,6 +8,8 @@ import SpoxModel.Props.C11
 #print axioms C11.emit_attrs
 #print axioms C11.table_conforms
 #print axioms C11.entryOK_sound
+#print axioms C11.conforming_call
+#print axioms C11.shipped_call
 #print axioms C11.table_conforms_except
 #print axioms C11.constant_sparse_value_counterexample
 #print axioms C11.group_normalization_deprecated_counterexample
